@@ -93,13 +93,36 @@ def cmap_doc(site, texts):
     return data
 
 
-def image_doc(text, draws, pages=1):
-    """a page that paints the image XObject registered under the name `text` `draws` times"""
-    from .pdfwriter import ser_name
-    pix = bytes(range(16))
-    img = Stream({"Type": Name("XObject"), "Subtype": Name("Image"), "Width": 4, "Height": 4, "BitsPerComponent": 8,
-                  "ColorSpace": Name("DeviceGray"), "Filter": Name("FlateDecode")}, zlib.compress(pix))
-    do = b"q 100 0 0 100 50 50 cm " + ser_name(text) + b" Do Q "
+# how the image dictionary fills the entries that reach the file name (ExtKinds of FsConfine.tla):
+#   ext kind -> (entries of the image dictionary, text of the extension the bitmap / raw route builds when the entries are sane)
+IMAGE_VARIANTS = {
+    "bmp": ({"Width": 4, "Height": 4, "BitsPerComponent": 8, "ColorSpace": Name("DeviceGray"), "Filter": Name("FlateDecode")}, ".bmp"),
+    "raw": ({"Width": 1, "Height": 1, "BitsPerComponent": 4, "ColorSpace": Name("DeviceGray")}, ".4.1x1.img"),
+    "neg": ({"Width": -1, "Height": 1, "BitsPerComponent": -4, "ColorSpace": Name("DeviceGray")}, ".-4.-1x1.img"),
+    "csill": ({"Width": 1, "Height": 1, "BitsPerComponent": 8, "ColorSpace": b"a/../b"}, ".8.1x1.img"),
+    "filterill": ({"Width": 1, "Height": 1, "BitsPerComponent": 8, "ColorSpace": Name("DeviceGray"), "Filter": Name("../x/y")}, ".bmp"),
+    "illclean": ({"Width": 1, "Height": 1, "BitsPerComponent": [1, 2], "ColorSpace": Name("DeviceGray")}, None),
+    "lead1": ({"Width": 1, "Height": 1, "BitsPerComponent": Name("pwned"), "ColorSpace": Name("DeviceGray")}, None),
+    "mid1": ({"Width": 1, "Height": 1, "BitsPerComponent": b"a/../b", "ColorSpace": Name("DeviceGray")}, None),
+    "leadW": ({"Width": Name("pwned"), "Height": [Name("x")], "BitsPerComponent": 4, "ColorSpace": Name("DeviceGray")}, None),
+}
+INLINE_KEYS = {"Width": "W", "Height": "H", "BitsPerComponent": "BPC", "ColorSpace": "CS", "Filter": "F"}
+
+
+def image_doc(text, draws, pages=1, ext="bmp", src="xobj"):
+    """a page that paints the image XObject registered under the name `text` `draws` times (src "inline": an inline
+    image with the same dictionary entries instead; its name is not the document's).  ext: see IMAGE_VARIANTS"""
+    from .pdfwriter import ser, ser_name
+    entries, _ = IMAGE_VARIANTS[ext]
+    pix = bytes(range(16)) if ext == "bmp" else b"\x5a"
+    attrs = {"Type": Name("XObject"), "Subtype": Name("Image")}
+    attrs.update(entries)
+    img = Stream(attrs, zlib.compress(pix) if entries.get("Filter") == "FlateDecode" else pix)
+    if src == "inline":
+        d = b" ".join(ser_name(INLINE_KEYS[k]) + b" " + ser(v) for k, v in entries.items() if not (k == "Filter" and v == "FlateDecode"))
+        do = b"q 100 0 0 100 50 50 cm BI " + d + b" ID " + pix[:1] + b" EI Q "
+    else:
+        do = b"q 100 0 0 100 50 50 cm " + ser_name(text) + b" Do Q "
     objs = {1: {"Type": Name("Catalog"), "Pages": Ref(2)}, 5: img}
     kids = []
     n = 10
